@@ -766,7 +766,14 @@ func main() {
 		if len(kinds) > 0 && kinds[0] == "shoot" {
 			script = nil // shootdowns issued back to back, without waiting for the previous answer: the CP must queue them
 		}
-		r.random(kinds, rng.Intn(5), 1+rng.Intn(2), script, *gate)
+		ncmd := rng.Intn(5)
+		if script == nil && len(kinds) > 0 && kinds[0] == "shoot" {
+			// two shootdowns arrive together, more follow
+			r.envReq("shoot")
+			r.envReq("shoot")
+			ncmd = 1 + rng.Intn(3)
+		}
+		r.random(kinds, ncmd, 1+rng.Intn(2), script, *gate)
 		r.finish()
 	}
 	bw.Flush()
